@@ -521,3 +521,43 @@ def _ends(n, s, starts):
 
 def ast_fullmatch(ast, s):
     return len(s) in _ends(ast["body"], s, {0})
+
+
+def sample_min(ast, letters=ASCII_LETTERS_DEFAULT):
+    """A short string that fully matches a supported-construct AST (None if it cannot find one)."""
+    def s(n):
+        k = n["k"]
+        if k == "lit":
+            return n["c"]
+        if k == "esc":
+            return _ESC[n["e"]]
+        if k == "any":
+            return "a"
+        if k == "cat":
+            return "0" if n["c"] == "d" else "a"
+        if k == "class":
+            if not n["neg"]:
+                it = n["items"][0]
+                if it["k"] == "lit":
+                    return it["c"]
+                if it["k"] == "range":
+                    return it["a"]
+                return "0" if it["c"] == "d" else "a"
+            for c in letters:
+                if _cls_has(n, c):
+                    return c
+            raise LookupError
+        if k == "seq":
+            return "".join(s(i) for i in n["items"])
+        if k == "alt":
+            return s(n["branches"][0])
+        if k == "group":
+            return s(n["body"])
+        if k == "rep":
+            return s(n["body"]) * n["min"]
+        raise LookupError
+    try:
+        out = s(ast["body"])
+    except LookupError:
+        return None
+    return out if ast_fullmatch(ast, out) else None
